@@ -30,9 +30,32 @@ def twoNewlinesAux : Bytes → Nat → Bool
 def containsTwoNewlines (b : Bytes) : Bool := twoNewlinesAux b 0
 
 def s2b (s : String) : Bytes := s.toUTF8.toList
-def METHODS : List Bytes := ["GET", "HEAD", "POST", "PUT", "DELETE", "TRACE", "OPTIONS", "CONNECT", "PATCH", "COPY",
-  "LOCK", "MKCOL", "MOVE", "PROPFIND", "PROPPATCH", "UNLOCK"].map s2b
-def VERSIONS : List Bytes := ["HTTP/0.9", "HTTP/1.0", "HTTP/1.1", "HTTP/2", "HTTP/3"].map s2b
+-- byte lists rather than string literals: string literals do not reduce in the kernel, these do (`decide`)
+/-- GET, HEAD, POST, PUT, DELETE, TRACE, OPTIONS, CONNECT, PATCH, COPY, LOCK, MKCOL, MOVE, PROPFIND, PROPPATCH, UNLOCK -/
+def METHODS : List Bytes := [
+  [71, 69, 84],
+  [72, 69, 65, 68],
+  [80, 79, 83, 84],
+  [80, 85, 84],
+  [68, 69, 76, 69, 84, 69],
+  [84, 82, 65, 67, 69],
+  [79, 80, 84, 73, 79, 78, 83],
+  [67, 79, 78, 78, 69, 67, 84],
+  [80, 65, 84, 67, 72],
+  [67, 79, 80, 89],
+  [76, 79, 67, 75],
+  [77, 75, 67, 79, 76],
+  [77, 79, 86, 69],
+  [80, 82, 79, 80, 70, 73, 78, 68],
+  [80, 82, 79, 80, 80, 65, 84, 67, 72],
+  [85, 78, 76, 79, 67, 75]]
+/-- HTTP/0.9, HTTP/1.0, HTTP/1.1, HTTP/2, HTTP/3 -/
+def VERSIONS : List Bytes := [
+  [72, 84, 84, 80, 47, 48, 46, 57],
+  [72, 84, 84, 80, 47, 49, 46, 48],
+  [72, 84, 84, 80, 47, 49, 46, 49],
+  [72, 84, 84, 80, 47, 50],
+  [72, 84, 84, 80, 47, 51]]
 def validMethod (b : Bytes) : Bool := METHODS.any (startsWith b)
 def validVersion (b : Bytes) : Bool := VERSIONS.any (startsWith b)
 def plausible (b : Bytes) : Bool := validMethod b || validVersion b
@@ -219,7 +242,7 @@ structure Head where
   earlyStart : Nat        -- `header_end - 1`: where the early body bytes start in the buffer
   deriving Repr, DecidableEq
 
-def HOST : Bytes := s2b "host"
+def HOST : Bytes := [104, 111, 115, 116]   -- "host"
 
 /-- the last check of `request`, made after the URI was built (`InvalidPath` wins over `InvalidVersion`) -/
 def Head.versionOk (h : Head) : Bool := parseVersion h.version
@@ -249,8 +272,8 @@ def requestHead (buf : Bytes) (defaultHost : Option Bytes) : Res Err Head :=
       .ok ⟨buf.take st.methodLen, extract buf st.pathStart st.pathEnd, st.version, h, st.hdrs, st.headerEnd - 1⟩
 
 /-- `get_body_length_request` -/
-def CONTENT_LENGTH : Bytes := s2b "content-length"
-def noBodyMethods : List Bytes := ["GET", "HEAD", "OPTIONS", "CONNECT", "TRACE"].map s2b
+def CONTENT_LENGTH : Bytes := [99, 111, 110, 116, 101, 110, 116, 45, 108, 101, 110, 103, 116, 104]   -- "content-length"
+def noBodyMethods : List Bytes := [[71, 69, 84], [72, 69, 65, 68], [79, 80, 84, 73, 79, 78, 83], [67, 79, 78, 78, 69, 67, 84], [84, 82, 65, 67, 69]]   -- GET, HEAD, OPTIONS, CONNECT, TRACE
 def bodyLength (h : Head) : Nat :=
   if noBodyMethods.contains h.method then 0 else
   match (h.headers.find? (·.1 == CONTENT_LENGTH)).map (·.2) with
